@@ -183,7 +183,7 @@ func failCommitScenario(r *runner, ws []string) (out string) {
 		if rr.err != nil {
 			return "bad next-writer " + errTok(rr.err)
 		}
-	case <-time.After(3 * time.Second):
+	case <-time.After(patience(3 * time.Second)):
 		x.e = nil // the engine is wedged: do not try to close it
 		return "bad lock-leaked-after-failed-commit (a new read-write transaction could not begin within 3 s)"
 	}
@@ -242,7 +242,7 @@ func runTxVis(r *runner) {
 		select {
 		case s := <-done:
 			r.emit(s)
-		case <-time.After(60 * time.Second):
+		case <-time.After(patience(60 * time.Second)):
 			r.emit("bad hang")
 		}
 	}
